@@ -2,9 +2,11 @@ import TongoModel.PoolSelect
 import TongoModel.PoolSM
 import TongoProofs.Lemmas.PoolSelect
 import TongoProofs.Lemmas.PoolSMDeadlock
-import TongoProofs.Lemmas.GenTiesA
 import TongoProofs.Lemmas.PoolSMSelect
 import TongoProofs.Lemmas.PoolSMLive
+import TongoProofs.Lemmas.PoolSMTimer
+import TongoProofs.Lemmas.PoolSMFairExample
+import TongoProofs.Lemmas.PoolSMWake
 /-! Property C13 — the connection pool picks a healthy, current server and its waits never hang.
 Property theorems only (helper lemmas live in TongoProofs/Lemmas/PoolSelect.lean, PoolSM*.lean).
 
@@ -145,7 +147,7 @@ There is no instant at which all heads are read together, so "the newest head kn
 newest head the refresh read; that is the strongest true statement. -/
 theorem select_spec_concurrent (v : Variant) (hv : v.oneSnapshot = true) (s s' : State) (hr : Reachable v s)
     (hs : PoolSM.step v s .ubSet = some s') :
-    ∃ i seqs acc, s.run = .ubSel i seqs acc ∧ acc.length = s.heads.length ∧ acc.map (·.seqno) = seqs ∧
+    ∃ i seqs rts acc, s.run = .ubSel i seqs rts acc ∧ acc.length = s.heads.length ∧ acc.map (·.seqno) = seqs ∧
       (∀ (k : Nat) (c : Conn), acc[k]? = some c → c.id = k ∧ c.seqno.toNat ≤ s.heads.getD k 0) ∧
       s'.best = (match specSelect s.strategy acc none with | some c => some c.id | none => s.best) ∧
       (∀ c, specSelect s.strategy acc none = some c →
@@ -154,9 +156,9 @@ theorem select_spec_concurrent (v : Variant) (hv : v.oneSnapshot = true) (s s' :
   have hS := reachable_invS hv hr
   simp only [PoolSM.step] at hs
   split at hs
-  · rename_i i seqs acc hrun
-    obtain ⟨hlen, hok⟩ := hL.selOk i seqs acc hrun
-    obtain ⟨hi, hsl, hsame⟩ := hS.selLen i seqs acc hrun
+  · rename_i i seqs rts acc hrun
+    obtain ⟨hlen, hok⟩ := hL.selOk i seqs rts acc hrun
+    obtain ⟨hi, hsl, hsame⟩ := hS.selLen i seqs rts acc hrun
     split at hs
     · rename_i hge
       have hin : i = s.heads.length := by omega
@@ -196,7 +198,7 @@ theorem select_spec_concurrent (v : Variant) (hv : v.oneSnapshot = true) (s s' :
         simp only [candidates, List.mem_filter, Bool.and_eq_true, current, List.all_eq_true,
           decide_eq_true_eq] at hmem
         exact ⟨hmem.1, hmem.2.1, hmem.2.2⟩
-      refine ⟨i, seqs, acc, hrun, by omega, hmap, hok.2, ?_, hcand⟩
+      refine ⟨i, seqs, rts, acc, hrun, by omega, hmap, hok.2, ?_, hcand⟩
       rw [hsel] at hs
       cases hsp : specSelect s.strategy acc none with
       | none => rw [hsp] at hs; cases hs; rfl
@@ -217,7 +219,7 @@ faster. The max loop reads 5 and 10 (max 10); then member 1 moves to 12 and memb
 of the refresh within one block of the newest head. The repaired code (one snapshot) chooses member 1 on the same
 schedule. Replayed on the Go code by `go.selectmv best-ping -1 1:5:1 1:10:2 m2:1:12 m2:0:9`. -/
 theorem select_two_pass_witness :
-    (runTrace ⟨true, true, false, true⟩ (mkInit [5, 10] none [] [(1, 12), (0, 9)] .bestPing [1, 2]) twoPassTrace).map
+    (runTrace ⟨true, true, false, true, true⟩ (mkInit [5, 10] none [] [(1, 12), (0, 9)] .bestPing [1, 2]) twoPassTrace).map
       (fun s => (s.best, s.heads)) = some (some 0, [9, 12]) ∧
     (runTrace fixed (mkInit [5, 10] none [] [(1, 12), (0, 9)] .bestPing [1, 2]) twoPassTrace).map
       (fun s => (s.best, s.heads)) = some (some 1, [9, 12]) := by
@@ -231,11 +233,11 @@ def NoDeadlock (v : Variant) : Prop := ∀ s, Reachable v s → quiescent s = tr
 /-- the 15-step counterexample for the original notifySubscribers: one waiter (target 10), two heads (5, 6) -/
 def deadlockTraceNotify : List Action :=
   [.wLock 0, .wSub 0, .sLock 0, .sSend 0, .recv, .nRLock, .nCheck, .nSend 0, .nDone, .sLock 1, .sSend 1, .recv, .nRLock,
-   .nCheck, .wFire 0]
+   .nCheck, .wCancel 0]
 
 /-- **no_deadlock is FALSE for the code as written** (defect #11). One waiter subscribes for seqno 10; head 5 is
 published and delivered into its cap-1 channel (unread); head 6 is published, `Run` takes it and holds `RLock` in
-notifySubscribers, blocked on the full channel; the waiter's timer fires and its deferred unsubscribe needs `Lock`.
+notifySubscribers, blocked on the full channel; the waiter's context is cancelled and its deferred unsubscribe needs `Lock`.
 In the reached state NO action of any thread is enabled — not even a tick or a timer (only a member's liveness
 attributes can still change, which unblocks nothing) — and the waiter has not returned. The witness is evaluated by `decide`; replayed on the Go code by `go.wait.adv.cancel`. -/
 theorem deadlock_orig_notify :
@@ -249,7 +251,7 @@ theorem deadlock_orig_notify :
     rw [hs] at h
     simp only [Option.map_some, Option.some.injEq] at h
     have hr : Reachable orig s :=
-      reachable_of_runTrace _ (Reachable.init [0] (some 0) [10] [(0, 5), (0, 6)] .bestPing [] (by decide) (by decide)) hs
+      reachable_of_runTrace _ (Reachable.init [0] (some 0) [10] [(0, 5), (0, 6)] .bestPing [] (by decide) (by decide) (by decide)) hs
     obtain ⟨h1, h2⟩ := deadlocked_spec h
     exact ⟨s, hr, h1, h2, fun ⟨a, hae, ha⟩ => by
       rw [h1 a (by cases a <;> simp_all [Action.isAttr, Action.isEnv])] at ha; cases ha⟩
@@ -268,10 +270,10 @@ def deadlockTracePublish : List Action :=
   [.tick, .ubLock] ++ (List.range 10).flatMap (fun j => [.sLock j, .sSend j]) ++ [.sLock 10]
 
 /-- **the second deadlock**: it exists in the code as written and also when only notifySubscribers is repaired
-(`⟨true, false, true, true⟩`), so both repairs are needed. No waiter is involved. Replayed on Go by `go.wait.adv.publish`. -/
+(`⟨true, false, true, true, true⟩`), so both repairs are needed. No waiter is involved. Replayed on Go by `go.wait.adv.publish`. -/
 theorem deadlock_orig_publish :
     (∃ s, Reachable orig s ∧ (∀ a, a.isAttr = false → PoolSM.step orig s a = none) ∧ quiescent s = false) ∧
-    ¬ NoDeadlock ⟨true, false, true, true⟩ := by
+    ¬ NoDeadlock ⟨true, false, true, true, true⟩ := by
   have key : ∀ v : Variant, v.pubUnlocked = false →
       ((runTrace v (mkInit [0] (some 0) [] ((List.range 11).map (fun k => (0, k + 1)))) deadlockTracePublish).map
         (deadlocked v) = some true) →
@@ -283,10 +285,10 @@ theorem deadlock_orig_publish :
       rw [hs] at h
       simp only [Option.map_some, Option.some.injEq] at h
       obtain ⟨h1, h2⟩ := deadlocked_spec h
-      exact ⟨s, reachable_of_runTrace _ (Reachable.init [0] (some 0) [] _ .bestPing [] (by decide) (by decide)) hs, h1, h2⟩
+      exact ⟨s, reachable_of_runTrace _ (Reachable.init [0] (some 0) [] _ .bestPing [] (by decide) (by decide) (by decide)) hs, h1, h2⟩
   refine ⟨key orig rfl (by decide), ?_⟩
   intro h
-  obtain ⟨s, hr, h1, hq⟩ := key ⟨true, false, true, true⟩ rfl (by decide)
+  obtain ⟨s, hr, h1, hq⟩ := key ⟨true, false, true, true, true⟩ rfl (by decide)
   rcases h s hr with h | ⟨a, hae, ha⟩
   · rw [hq] at h; cases h
   · rw [h1 a (by cases a <;> simp_all [Action.isAttr, Action.isEnv])] at ha; cases ha
@@ -333,7 +335,7 @@ theorem subscribe_short_circuit (v : Variant) (s : State) (i c : Nat) (x : Waite
       s'.waiters[i]? = some x' ∧ x'.pc = .sel ∧ x'.buf = [s.heads.getD c 0] ∧ x'.wid = 0 ∧
       ∃ s'' x'', PoolSM.step v s' (.wRecv i) = some s'' ∧ s''.waiters[i]? = some x'' ∧ x''.pc = .leave .ok := by
   have hlt : i < s.waiters.length := (List.getElem?_eq_some_iff.mp hx).1
-  let x' : Waiter := { x with pc := .sel, buf := [s.heads.getD c 0], wid := 0 }
+  let x' : Waiter := { x with pc := .sel, buf := [s.heads.getD c 0], wid := 0, timer := .armed }
   let s' : State := { (s.setW i x') with rw := .free, log := s.log ++ [(i, c, s.heads.getD c 0)] }
   have h1 : PoolSM.step v s (.wSub i) = some s' := by
     simp only [PoolSM.step, hx, hpc, hb, hf, hge, if_true]
@@ -341,11 +343,12 @@ theorem subscribe_short_circuit (v : Variant) (s : State) (i c : Nat) (x : Waite
   have hx' : s'.waiters[i]? = some x' := by
     show (s.waiters.set i x')[i]? = some x'
     simp [hlt]
-  let x'' : Waiter := { x' with buf := [], received := s.heads.getD c 0 :: x'.received, pc := .leave .ok }
+  let tm : Timer := Timer.armed
+  let x'' : Waiter := { x' with buf := [], pc := WPc.leave WRes.ok, timer := tm, received := s.heads.getD c 0 :: x'.received }
   have h2 : PoolSM.step v s' (.wRecv i) = some (s'.setW i x'') := by
     have hge' : x.target ≤ s.heads[c]?.getD 0 := by simpa [List.getD_eq_getElem?_getD] using hge
     simp only [PoolSM.step, hx']
-    simp [x', x'', hge']
+    simp [x', x'', tm, hge']
   refine ⟨s', x', h1, rfl, rfl, hx', rfl, rfl, rfl, s'.setW i x'', x'', h2, ?_, rfl⟩
   show (s'.waiters.set i x'')[i]? = some x''
   have : i < s'.waiters.length := (List.getElem?_eq_some_iff.mp hx').1
@@ -387,10 +390,10 @@ theorem subscribe_atomic (v : Variant) (s : State) (hr : Reachable v s) (i : Nat
       · split at hs
         · rename_i hge
           cases hs
-          exact ⟨rfl, { w with pc := .sel, buf := [s.heads.getD c 0], wid := 0 }, by simp [State.setW, hlt],
+          exact ⟨rfl, { w with pc := .sel, buf := [s.heads.getD c 0], wid := 0, timer := .armed }, by simp [State.setW, hlt],
             Or.inr ⟨rfl, Or.inl ⟨rfl, s.heads.getD c 0, by simp, hge⟩⟩⟩
         · cases hs
-          exact ⟨rfl, { w with pc := .sel, wid := s.nextId + 1 }, by simp [State.setW, hlt],
+          exact ⟨rfl, { w with pc := .sel, wid := s.nextId + 1, timer := .armed }, by simp [State.setW, hlt],
             Or.inr ⟨rfl, Or.inr (by simp [State.setW])⟩⟩
       · cases hs
 
@@ -409,12 +412,14 @@ theorem publish_not_dropped (v : Variant) (s s' : State) (a : Action) (j : Nat) 
   · simp only [PoolSM.step, hx, hpc]
     split <;> simp_all
 
-/-- **eventually_notified** (repaired code): nothing notifySubscribers offers is lost. If a head `m ≥ target` has
+/-- **offered_head_not_lost** (called `eventually_notified` in the design; renamed because it is conditional on a head
+having been OFFERED — that the head of the best connection is offered at all is `no_lost_wakeup`).
+Nothing notifySubscribers offers is lost. If a head `m ≥ target` has
 been offered to a waiter that is still in its select, then a head `≥ target` is in its channel, or `Run` is between
 its two selects about to put one there into the (empty) channel — so the waiter's receive case is, or is about to
 be, ready, and that receive decides `ok` (`wait_outcomes`). The drop-on-full variant
 `select { case ch <- v: default: }` does NOT have this property (it keeps the oldest head). -/
-theorem eventually_notified (v : Variant) (s : State) (hr : Reachable v s) (i : Nat) (w : Waiter)
+theorem offered_head_not_lost (v : Variant) (s : State) (hr : Reachable v s) (i : Nat) (w : Waiter)
     (hw : s.waiters[i]? = some w) (hsel : w.pc = .sel) (m : Nat) (hoff : w.offered = some m) (hm : w.target ≤ m) :
     (∃ h ∈ w.buf, w.target ≤ h) ∨
     (∃ sw h h' todo, s.run = .nPut sw h h' i todo ∧ w.target ≤ h' ∧ w.buf = []) := by
@@ -433,6 +438,77 @@ theorem eventually_notified (v : Variant) (s : State) (hr : Reachable v s) (i : 
   · have := hO.selLow i w hw hsel h hmem
     omega
 
+/-- **no_lost_wakeup** (repaired code, every reachable state, every interleaving): if a waiter is registered and in
+its select and the best connection is at or beyond its target, then a head `≥ target`
+* is in its channel, or is carried by `Run` for that channel, or is being handed out (by notifySubscribers or by the
+  refresh that switched the choice) with this waiter not served yet, or
+* is still on its way for the best connection: stored by a SetMasterHead caller that has not published yet, in
+  `masterHeadUpdatedCh`, or just received by `Run`.
+This is the missing link before `wait_success_spec`: "the best connection reports a head ≥ target while the waiter
+is subscribed" implies the premise of `wait_success_spec` now or after finitely many steps of the pipeline
+(`publish_not_dropped`, `no_deadlock`). Needs all of: subscribe in one critical section (`subscribe_atomic`),
+publication never dropped, ids starting at 1 and unique (`InvR`), one snapshot per refresh and the notification on a
+switch; without the latter it is false (`lost_wakeup_switch_witness`). -/
+theorem no_lost_wakeup (s : State) (hr : Reachable fixed s) (i : Nat) (w : Waiter) (c : Nat)
+    (hw : s.waiters[i]? = some w) (hsel : w.pc = .sel) (hreg : w.wid ≠ 0) (hb : s.best = some c)
+    (hle : w.target ≤ s.heads.getD c 0) :
+    (∃ h ∈ w.buf, w.target ≤ h) ∨
+    (∃ sw h h' todo, s.run = .nPut sw h h' i todo ∧ w.target ≤ h') ∨
+    (∃ sw h todo, s.run = .nLoop sw h todo ∧ i ∈ todo ∧ w.target ≤ h) ∨
+    (∃ sw h h' x todo, s.run = .nPut sw h h' x todo ∧ i ∈ todo ∧ w.target ≤ h) ∨
+    (∃ (j : Nat) (x : Setter), s.setters[j]? = some x ∧ x.pc = .sendUnlocked ∧ x.conn = c ∧ w.target ≤ x.head) ∨
+    (∃ e ∈ s.upd, e.1 = c ∧ w.target ≤ e.2) ∨
+    (∃ h, (s.run = .nWant c h ∨ s.run = .nCheck c h) ∧ w.target ≤ h) := by
+  have hW := (reachable_woken (v := fixed) rfl rfl rfl hr).1
+  have hNS := noSendLocked_of (v := fixed) rfl hr
+  rcases hW i w c hw hsel hreg hb hle with h1 | ⟨j, x, hx, hp, hc, ht⟩ | ⟨e, he, hc, ht⟩ | h4
+  · simp only [Bool.or_eq_true] at h1
+    rcases h1 with (h1 | h1) | h1
+    · left
+      unfold bufGe at h1
+      split at h1
+      · rename_i u rest hbuf; exact ⟨u, by rw [hbuf]; simp, by simpa using h1⟩
+      · cases h1
+    · obtain ⟨sw, h0, h', todo, hrun, hle'⟩ := carriedGe_spec h1
+      exact Or.inr (Or.inl ⟨sw, h0, h', todo, hrun, hle'⟩)
+    · unfold preGe at h1
+      split at h1
+      · rename_i sw h0 todo hrun
+        simp only [Bool.and_eq_true, decide_eq_true_eq] at h1
+        exact Or.inr (Or.inr (Or.inl ⟨sw, h0, todo, hrun, h1.1, h1.2⟩))
+      · rename_i sw h0 h' x todo hrun
+        simp only [Bool.and_eq_true, decide_eq_true_eq] at h1
+        exact Or.inr (Or.inr (Or.inr (Or.inl ⟨sw, h0, h', x, todo, hrun, h1.1, h1.2⟩)))
+      · cases h1
+  · rcases hp with hp | hp
+    · exact Or.inr (Or.inr (Or.inr (Or.inr (Or.inl ⟨j, x, hx, hp, hc, ht⟩))))
+    · exact absurd hp (hNS j x hx)
+  · exact Or.inr (Or.inr (Or.inr (Or.inr (Or.inr (Or.inl ⟨e, he, hc, ht⟩)))))
+  · unfold pendRun at h4
+    split at h4
+    · rename_i c' h0 hrun
+      simp only [Bool.and_eq_true, beq_iff_eq, decide_eq_true_eq] at h4
+      exact Or.inr (Or.inr (Or.inr (Or.inr (Or.inr (Or.inr ⟨h0, Or.inl (by rw [hrun, h4.1]), h4.2⟩)))))
+    · rename_i c' h0 hrun
+      simp only [Bool.and_eq_true, beq_iff_eq, decide_eq_true_eq] at h4
+      exact Or.inr (Or.inr (Or.inr (Or.inr (Or.inr (Or.inr ⟨h0, Or.inr (by rw [hrun, h4.1]), h4.2⟩)))))
+    · cases h4
+
+/-- **lost_wakeup_switch_witness**: the code before the notify-on-switch repair. A waiter for seqno 8 registers while
+the best connection 0 is at 5; connection 1 is at 9; connection 0 dies and a refresh switches to connection 1.
+Afterwards the waiter is registered and in its select, the best connection is beyond its target, and NOTHING is in
+its channel or on its way: the invariant of `no_lost_wakeup` fails (the waiter is woken only by connection 1's next
+head). Replayed on Go by `go.wait.script best-ping 5/9 0 w:0:8:L t:2:1.1`. -/
+def lostWakeupTrace : List Action :=
+  [.wLock 0, .wSub 0, .setAlive 0 false, .tick, .ubLock, .ubRead, .ubRead, .ubRead, .ubSel, .ubSel, .ubSet]
+
+theorem lost_wakeup_switch_witness :
+    let r := runTrace ⟨true, true, true, false, true⟩ (mkInit [5, 9] (some 0) [8] []) lostWakeupTrace
+    r.map (fun s => (s.best, s.heads)) = some (some 1, [5, 9]) ∧
+    r.map (fun s => (s.run == .idle, s.upd.length, s.setters.length)) = some (true, 0, 0) ∧
+    r.map (fun s => s.waiters.map (fun w => (w.pc == .sel, w.wid, w.buf.length, w.target))) = some [(true, 1, 0, 8)] := by
+  refine ⟨by decide, by decide, by decide⟩
+
 /-- **wait_success_spec** (liveness of the repaired protocol under explicit fairness). Take any infinite execution
 of the repaired model (any interleaving of any number of waiters, SetMasterHead callers, ticks, liveness changes) in
 which `Run` is weakly fair (it is not ignored forever while it can move) and the waiter's receive is strongly fair
@@ -447,7 +523,7 @@ and neither its timer nor its context fires afterwards, then the waiter's result
 deferred unsubscribe after the decision gets the pool lock). -/
 theorem wait_success_spec (e : Exec fixed) (i n0 : Nat) (w : Waiter)
     (hfR : WeakFair e RunAct) (hfW : StrongFair e (RecvAct i))
-    (hnofire : ∀ m, n0 ≤ m → e.act m ≠ .wFire i)
+    (hnofire : ∀ m, n0 ≤ m → e.act m ≠ .wFire i ∧ e.act m ≠ .wCancel i)
     (hw : (e.st n0).waiters[i]? = some w) (hsel : w.pc = .sel)
     (hoff : (∃ h ∈ w.buf, w.target ≤ h) ∨
       (∃ sw h todo, (e.st n0).run = .nLoop sw h todo ∧ i ∈ todo ∧ w.target ≤ h) ∨
@@ -480,6 +556,54 @@ theorem wait_success_spec (e : Exec fixed) (i n0 : Nat) (w : Waiter)
   obtain ⟨w', hw'⟩ := exec_waiter_some e i n0 ⟨w, hw⟩ m hm
   exact ⟨m, hm, w', hw', hd w' hw'⟩
 
+/-! ### the timeout clause: the timer is state (round 4) -/
+
+/-- a waiter for seqno 10 whose timeout elapses and who then receives head 6 (below its target) -/
+def rearmTrace : List Action :=
+  [.wLock 0, .wSub 0, .wDeadline 0, .sLock 0, .sSend 0, .recv, .nRLock, .nCheck, .nDrain 0, .nPut, .wRecv 0]
+
+/-- **timer_rearm_witness**: the ORIGINAL `WaitMasterchainSeqno` evaluates `time.After(timeout)` inside its loop. On
+`rearmTrace` the timeout has elapsed, then a head below the target is received: in the original code the timer is
+running again and the select cannot take the timer case (`wFire` disabled) — and so on with every further head: the
+call does not return "once its timeout has elapsed". In the repaired code (one timer) the timeout stays elapsed and
+`wFire` is enabled. Reproduced on Go by `go.wait.deadline 200 100 1`. -/
+theorem timer_rearm_witness :
+    (runTrace ⟨true, true, true, true, false⟩ (mkInit [5] (some 0) [10] [(0, 6)]) rearmTrace).map
+      (fun s => (s.waiters.map (·.timer), (PoolSM.step ⟨true, true, true, true, false⟩ s (.wFire 0)).isSome))
+      = some ([.armed], false) ∧
+    (runTrace fixed (mkInit [5] (some 0) [10] [(0, 6)]) rearmTrace).map
+      (fun s => (s.waiters.map (·.timer), (PoolSM.step fixed s (.wFire 0)).isSome)) = some ([.due], true) := by
+  constructor <;> decide
+
+/-- **timeout_bounded** (repaired code). Once the timeout of waiter `i` has elapsed while it is in its select
+(`wDeadline` has happened):
+* no step of anybody re-arms it: in every later state the waiter is still in its select with the timeout elapsed, or
+  it has left the select (`leave`/`done`);
+* as long as it is in the select the timer case is enabled (`wFire`), so its own steps are: receive a head below the
+  target (stays, timeout still elapsed), receive a head ≥ target (`leave ok`), take the timer (`leave err`);
+* in every execution in which that select is weakly fair the waiter leaves the select; with `wait_returns` it returns.
+The elapsed real time between the deadline and the return is the scheduler's (outside the model; measured by the
+oracle `go.wait.deadline`). -/
+theorem timeout_bounded (e : Exec fixed) (i n0 : Nat)
+    (hw : ∃ w, (e.st n0).waiters[i]? = some w ∧ w.pc = .sel ∧ w.timer = .due) :
+    (∀ m, n0 ≤ m → ∀ w, (e.st m).waiters[i]? = some w →
+      (w.pc = .sel ∧ w.timer = .due ∧ (PoolSM.step fixed (e.st m) (.wFire i)).isSome = true) ∨
+      (∃ r, w.pc = .leave r) ∨ (∃ r, w.pc = .done r)) ∧
+    (WeakFair e (FireAct i) →
+      ∃ m, n0 ≤ m ∧ ∃ w, (e.st m).waiters[i]? = some w ∧ ((∃ r, w.pc = .leave r) ∨ ∃ r, w.pc = .done r)) := by
+  obtain ⟨w0, hw0, hp0, ht0⟩ := hw
+  refine ⟨?_, fun hf => timeout_leaves (v := fixed) rfl e i n0 hf ⟨w0, hw0, hp0, ht0⟩⟩
+  intro m hm
+  obtain ⟨d, rfl⟩ := Nat.exists_eq_add_of_le hm
+  have hd : DueOrLeft (e.st (n0 + d)) i := by
+    induction d with
+    | zero => intro w hw; rw [Nat.add_zero, hw0] at hw; cases hw; exact Or.inl ⟨hp0, ht0⟩
+    | succ d ih => exact due_step (v := fixed) rfl i (ih (Nat.le_add_right _ _)) (e.ok (n0 + d))
+  intro w hw
+  rcases hd w hw with ⟨hp, ht⟩ | h
+  · exact Or.inl ⟨hp, ht, fire_enabled hw hp ht⟩
+  · exact Or.inr h
+
 /-- **wait_returns**: the decided waiter returns. After the decision (`leave r`) the deferred unsubscribe needs the
 pool's write lock. If `Run` and every subscribing waiter are weakly fair they release the lock again and again
 (`Run`'s critical sections terminate: measure over the remaining reads / channels; a subscriber finishes its one
@@ -491,15 +615,63 @@ theorem wait_returns (e : Exec fixed) (i n0 : Nat) (r : WRes)
     ∃ m, n0 ≤ m ∧ ∃ w, (e.st m).waiters[i]? = some w ∧ w.pc = .done r :=
   returns_eventually (v := fixed) rfl rfl e hfR hfS i n0 r hfU hw
 
+/-! ### non-vacuity of the liveness theorems: explicit fair infinite executions (`Lemmas/PoolSMFairExample.lean`) -/
+
+/-- `wait_success_spec` and `wait_returns` instantiated on an explicit execution: a waiter for seqno 6 registers on a
+pool at head 5, head 6 is published, `Run` notifies, the waiter receives and unsubscribes, then only the environment
+acts forever. All fairness hypotheses are PROVED for this execution; the conclusions hold non-vacuously (from step 7,
+where notifySubscribers iterates with head 6 and has not served the waiter yet). -/
+theorem liveness_nonvacuous :
+    (∃ m, 7 ≤ m ∧ ∃ w', (FairExample.exec.st m).waiters[0]? = some w' ∧ (w'.pc = .leave .ok ∨ w'.pc = .done .ok)) ∧
+    (∃ m, 11 ≤ m ∧ ∃ w', (FairExample.exec.st m).waiters[0]? = some w' ∧ w'.pc = .done .ok) := by
+  constructor
+  · exact wait_success_spec FairExample.exec 0 7
+      { target := 6, pc := .sel, wid := 1, timer := .armed } FairExample.fairRun FairExample.fairRecv
+      FairExample.nofire (by decide) rfl (Or.inr (Or.inl ⟨false, 6, [0], by decide, by decide, by decide⟩))
+  · exact wait_returns FairExample.exec 0 11 .ok FairExample.fairRun FairExample.fairSub FairExample.fairUnsub
+      ⟨{ target := 6, pc := .leave .ok, wid := 1, timer := .armed, received := [6], offered := some 6 },
+        by decide, rfl⟩
+
+/-- `timeout_bounded` instantiated on an explicit fair execution in which the timeout elapses at step 3 -/
+theorem timeout_nonvacuous :
+    ∃ m, 3 ≤ m ∧ ∃ w, (FairExample2.exec.st m).waiters[0]? = some w ∧ ((∃ r, w.pc = .leave r) ∨ ∃ r, w.pc = .done r) :=
+  (timeout_bounded FairExample2.exec 0 3
+    ⟨{ target := 6, pc := .sel, wid := 1, timer := .due }, by decide, rfl, rfl⟩).2 FairExample2.fairFire
+
+/-- **indices_in_range**: in every reachable state every index the model dereferences with a default (`getD`,
+`[i]?`, `List.set`) is in range: the best connection and every SetMasterHead caller name an existing member, every
+wait-list entry and every channel `Run` still has to serve belongs to an existing waiter — the defaults are dead
+code, no out-of-range access is hidden by totalisation. (Go cannot index out of range here either: these are pointers
+and map entries.) -/
+theorem indices_in_range (v : Variant) (s : State) (hr : Reachable v s) :
+    (∀ c, s.best = some c → c < s.heads.length) ∧
+    (∀ (j : Nat) (x : Setter), s.setters[j]? = some x → x.conn < s.heads.length) ∧
+    (∀ e ∈ s.waitList, e.2 < s.waiters.length) ∧
+    (∀ sw h todo, s.run = .nLoop sw h todo → ∀ w ∈ todo, w < s.waiters.length) ∧
+    (∀ sw h h' w todo, s.run = .nPut sw h h' w todo → w < s.waiters.length) := by
+  have hL := reachable_invL hr
+  have hA := reachable_invA hr
+  refine ⟨hL.bestOk, hL.connOk, ?_, ?_, ?_⟩
+  · intro e he
+    obtain ⟨x, hx, _⟩ := hA.vWl e he
+    exact (List.getElem?_eq_some_iff.mp hx).1
+  · intro sw h todo hrun w hw
+    obtain ⟨x, hx, _⟩ := hA.vLoop sw h todo hrun w hw
+    exact (List.getElem?_eq_some_iff.mp hx).1
+  · intro sw h h' w todo hrun
+    obtain ⟨⟨x, hx, _⟩, _⟩ := hA.vPut sw h h' w todo hrun
+    exact (List.getElem?_eq_some_iff.mp hx).1
+
 /-- with a best connection chosen initially (which `addConnection` guarantees for a non-empty pool) no waiter ever
 dereferences a nil `bestConn`: `subscribe` does not panic. (On an EMPTY pool `WaitMasterchainSeqno` does panic —
 `p.bestConn.MasterHead()` on a nil interface; outside the property's quantifier, noted in the report.) -/
 theorem no_nil_deref (v : Variant) (heads : List Nat) (c : Nat) (targets : List Nat) (pubs : List (Nat × Nat))
     (st : Strategy) (rtts : List Int)
-    (hp : ∀ p ∈ pubs, p.1 < heads.length ∧ p.2 < 2 ^ 32) (hh : ∀ h ∈ heads, h < 2 ^ 32) (as : List Action) (s : State)
+    (hp : ∀ p ∈ pubs, p.1 < heads.length ∧ p.2 < 2 ^ 32) (hh : ∀ h ∈ heads, h < 2 ^ 32) (hc : c < heads.length)
+    (as : List Action) (s : State)
     (h : runTrace v (mkInit heads (some c) targets pubs st rtts) as = some s) :
     s.best ≠ none ∧ ∀ (i : Nat) (w : Waiter), s.waiters[i]? = some w → w.pc ≠ .done .panic := by
-  refine noPanic_trace as (Reachable.init heads (some c) targets pubs st rtts hp hh) ⟨by simp [mkInit], ?_⟩ h
+  refine noPanic_trace as (Reachable.init heads (some c) targets pubs st rtts hp hh (by intro c' h'; cases h'; exact hc)) ⟨by simp [mkInit], ?_⟩ h
   intro i w hw
   have := mkInit_waiter hw
   simp [this.1]
